@@ -336,6 +336,33 @@ def drainCmd (st : St) : List String → St × String
     (st, s!"upd={if d.upd == .idle then "idle" else "waiting"} policy={d.policy} active={(Drain.actives d).length}")
   | _ => (st, "bad-op")
 
+/-- accounting outcome of a run in which `clients` connections arrive at a server with limit `max`, all of
+    them eventually leave and every unregister call completes: run the transition system to rest. -/
+def connsFinal (max clients : Nat) : Int :=
+  let rec go (fuel : Nat) (s : Conns.St) (next : Nat) : Conns.St :=
+    match fuel with
+    | 0 => s
+    | f + 1 =>
+      if next < clients then
+        if max = 0 ∨ s.count < max then
+          go f { s with conns := ⟨next, true, false, 0⟩ :: s.conns, count := s.count + 1 } (next + 1)
+        else
+          -- at the limit: unregister the oldest registered connection first (it left), then continue
+          match s.conns.find? (·.inMap) with
+          | some c => go f { s with conns := Conns.upd s.conns c.id Conns.fire, count := s.count - 1 } next
+          | none => go f { s with rejected := s.rejected + 1 } (next + 1)
+      else
+        match s.conns.find? (·.inMap) with
+        | some c => go f { s with conns := Conns.upd s.conns c.id Conns.fire, count := s.count - 1 } next
+        | none => s
+  (go (4 * clients + 4) Conns.init 0).count
+
+def connsCmd : List String → String
+  | ["final", m, c] => match m.toNat?, c.toNat? with
+    | some m, some c => s!"count={connsFinal m c}"
+    | _, _ => "bad-op"
+  | _ => "bad-op"
+
 def rlCmd (st : St) : List String → St × String
   | ["bucket", name, n, d, burst, now] =>
     match n.toNat?, d.toNat?, burst.toNat?, now.toNat? with
@@ -481,6 +508,7 @@ def step (st : St) (line : String) : St × String :=
   | "tls" :: args => (st, tlsCmd args)
   | "pool" :: args => (st, poolCmd args)
   | "drain" :: args => drainCmd st args
+  | "conns" :: args => (st, connsCmd args)
   | ["reset"] => ({}, "ok")
   | _ => (st, "bad-op")
 
